@@ -199,13 +199,13 @@ TAGIFY_FNS = [CORE + "TagList.tagify", CORE + "Tag.tagify", CORE + "TagList.rend
 DEPS_FNS = [CORE + "_resolve_dependencies", CORE + "TagList.get_dependencies", CORE + "Tag.get_dependencies"]
 plan(Plan(
     id="C09", title="Tagifiable objects render as their expansion, spliced in place",
-    contracts=TAGIFY_FNS + DEPS_FNS + RENDER_FNS + [CORE + "_tagchilds_to_tagnodes"],
+    contracts=TAGIFY_FNS + DEPS_FNS + RENDER_FNS + [CORE + "_tagchilds_to_tagnodes", CORE + "HTMLDocument._gen_html_tag_tree", CORE + "HTMLDocument.render"],
     lean={"HV.C09": ["spliceLoop_all", "tagifyL_flatMap", "tagifyL_append", "C09_splice_in_place", "C09_expand_list", "C09_expand_node", "C09_expand_plain",
                      "C09_expand_tag", "C09_tagified_after_L", "C09_no_ob_T", "C09_no_ob_L", "C09_render_no_raise", "C09_raises_unexpanded", "C09_render_subst"]},
     oracle="c09", design_ref="§7 C09",
-    own=_own("TagList.tagify", "Tag.tagify", ".render:", "_tagchilds_to_tagnodes", "raises-RuntimeError", "no-RuntimeError", "raises_fold", ".raises", ".noraise"),
+    own=_own("TagList.tagify", "Tag.tagify", ".render:", "_tagchilds_to_tagnodes", "raises-RuntimeError", "no-RuntimeError", "raises_fold", ".raises", ".noraise", "HTMLDocument._gen_html_tag_tree"),
     assumptions=["A5: obj.tagify() is a pure function of the object returning a TagList whose items are fully tagified, or a single tagified node (Tagifiable protocol docstring)",
-                 "HTMLDocument.render()'s use of tagify is covered by C11's contracts"],
+                 "HTMLDocument: _gen_html_tag_tree / render are verified against docTree / docRender, which tagify the content before hoisting (the head/listing structure itself is C11's subject)"],
 ))
 plan(Plan(
     id="C10", title="Dependencies are validated, then resolve one per name to the highest version",
@@ -301,4 +301,29 @@ plan(Plan(
                  "== (_equals_impl walks __dict__ generically) is covered by the bounded oracle only: rebuilt-equal trees, different kinds, ten kinds of single differences"],
     bounded=["B:C08:== semantics (_equals_impl): bounded oracle, not an R-obligation",
              "B:C08:purity of the HTMLDependency methods and save_html: bounded oracle deep snapshot with object identities"],
+))
+
+
+TDP = CORE + "HTMLTextDocument."
+plan(Plan(
+    id="C13", title="Serialised dependencies round-trip through HTML text",
+    contracts=[CORE + "HTMLDependency.serialize_to_script_json#record", TDP + "_static_extract_serialized_html_deps", TDP + "render", CORE + "_render_tag_or_taglist"],
+    lean={"HV.C13": ["C13_neutral_no_end_tag", "C13_no_end_tag_any_case", "C13_serial_markup", "C13_only_own_close", "C13_findall_one", "C13_sub_one", "C13_extract_none",
+                     "C13_extract_serialised", "C13_dedup_nodup", "C13_dedup_mem", "C13_dedup_order", "C13_dedup_snoc", "C13_replace_first", "C13_replace_absent",
+                     "C13_textdoc_first_only", "depsOfTexts_ssnoc"]},
+    gconds=["G:_NO_ESCAPE_TAG_NAMES:script-style"],
+    oracle="c13", design_ref="§7 C13", own=lambda name: True, level="proof",
+    claim="serialize_to_script_json is verified from the real AST to build <script type=application/json data-html-dependency> around neutral(json.dumps(eight fields)); "
+          "neutral leaves no '</' at all (so no '</script' in any letter case), the element renders as OPEN ++ text ++ '</script>' with its own closing tag as the only '</', "
+          "the lazy-regex extraction recovers exactly that text and removes the element, de-duplication keeps first occurrences in order, HTMLTextDocument.render replaces only the "
+          "first placeholder by the rendering of the same headExtra(deps) that HTMLDocument appends to <head> (Lean); str() in json mode appends the serialised dependencies",
+    assumptions=["json is external: json.dumps is an uninterpreted function of the structural image of its argument; the round trip needs "
+                 "json.loads(neutral(json.dumps(v))) == v ('\\\\/' is a JSON escape of '/'), and HTMLDependency(**json.loads(t)) is an uninterpreted function depOfText(t) of the text: "
+                 "field-wise equality of the recovered dependency is covered by the bounded oracle only",
+                 "A3: re.findall/re.sub with the pattern OPEN ((?:.|\\\\r|\\\\n)*?) CLOSE (literals without regex metacharacters, checked on the constant in the source) behave as the "
+                 "leftmost-OPEN / first-CLOSE-after-it scanners reFindallLazy / reSubLazy (hand-written Lean definitions, cross-checked against CPython's re per run)",
+                 "a Python set of strings is modelled as an insertion-ordered list without duplicates used only through `in` and `add` (iteration over it would leave the subset)",
+                 "the equivalence of json-mode str() + HTMLTextDocument with direct rendering is a composition covered by the bounded oracle, not by one theorem"],
+    bounded=["B:C13:field-wise round trip through json / the constructor with hostile strings (quotes, backslashes, newlines, non-ASCII, </script> in any case, <!--), repeated copies, any indent",
+             "B:C13:json-mode str() + HTMLTextDocument == direct render()"],
 ))
